@@ -287,3 +287,19 @@ Example C20_indep_unconditional_run :
   w = FOk [FOk 40%nat; FOk 8%nat] /\ Nat.ltb (length file) 48 = true /\ frame_ok file content /\
   read_session dstate dctx_init fd_info fd_dec true [] file [50%nat; 1%nat] = FOk (chop content [50%nat; 1%nat]).
 Proof. vm_compute. repeat split; reflexivity. Qed.
+
+(* any preferences (lz4file.c's default is LINKED blocks): the block compressor is the model of LZ4_compress_fast_continue
+   (Proofs/BlkInstLinked.v), driven by an oracle of stream states satisfying the C11 invariants and consistent with the
+   history the LZ4F model offers *)
+From LZ4V Require Import Model.FastStream Proofs.BlkInstLinked.
+Theorem C20_roundtrip_stream_unconditional : forall st, (forall n, lorc_ok (st n)) ->
+  forall (po : option prefs) (mw : nat) (bufs : list (list byte)) (sizes : list nat) (junk : list byte),
+    maxWrite_of po = Some mw -> FileProofs.csize_ok po (concat bufs) -> prefs_wf po ->
+    (Z.of_nat (length (concat bufs)) < FrameC.U64)%Z -> bytes_ok (concat bufs) = true ->
+    exists file : list byte,
+      write_session FrameC.cctx FrameC.cctx_zero fc_begin (fc_update (blk_fast_linked st 0)) (fc_end (blk_fast_linked st 0)) po bufs
+        = (FOk (map (fun b => FOk (length b)) bufs), file) /\
+      frame_ok file (concat bufs) /\
+      read_session dstate dctx_init fd_info fd_dec true junk file sizes = FOk (chop (concat bufs) sizes).
+Proof. exact roundtrip_stream_unconditional. Qed.
+Print Assumptions C20_roundtrip_stream_unconditional.
